@@ -113,6 +113,17 @@ def _assert_site(prog, fn, rg, b, t, eb):
         lim = rg.of(cond[3])
         if r and lim and r[0] >= 0 and r[1] < lim[0]:
             return Site(fn, b, kind, t["span"]["line"], txt, "discharged", "D2 index %s < len %s" % (r, lim[0]))
+        # D6: the index is below a length established by a test still in force
+        lenop = cond[3]
+        srcs = None
+        if lenop[0] == "unop" and lenop[1] == "PtrMetadata":
+            srcs = expr_str(lenop[2])
+        elif lenop[0] == "call" and (callee_name(lenop) or "").split("::")[-1] == "len" and lenop[3]:
+            srcs = expr_str(lenop[3][0])
+        if r and r[0] >= 0 and srcs and re.match(r"^&?(mut )?[\w.]+$", srcs):
+            lb = _len_lower_bound(prog, fn, b, srcs)
+            if r[1] < lb:
+                return Site(fn, b, kind, t["span"]["line"], txt, "discharged", "D6 index %s < %d <= len(%s) by a test still in force" % (r, lb, srcs))
         return Site(fn, b, kind, t["span"]["line"], txt, "open", "index %s, len %s" % (r, lim))
     if msg in ("div_zero", "rem_zero") and cond[0] == "binop" and cond[1] == "Eq":
         r = rg.of(cond[2])
@@ -176,9 +187,107 @@ def _call_site(prog, fn, rg, b, t, eb, ebf):
             return Site(fn, b, k, line, txt, "open", "try_into to [u8; %s] not dominated by a length test" % n)
         return Site(fn, b, k, line, txt, "open", "unwrap/expect on %s" % (expr_str(inner)[:100] if inner else "?"))
     if kind == "index":
-        # D2': slicing `v[..n]` / `v[a..b]` is not discharged locally
+        # D6: `v[a..]`, `v[..b]`, `v[a..b]`, `split_at(v, n)` under a length test still in force
+        need = None
+        src = expr_str(e[3][0]) if e[3] else ""
+        if len(e[3]) > 1:
+            a1 = e[3][1]
+            if a1[0] == "agg" and a1[1] == "adt" and (a1[3] or a1[2]).split("::")[-1] in ("RangeFrom", "RangeTo") and len(a1[5]) == 1:
+                rr = rg.of(a1[5][0])
+                need = rr[1] if rr and rr[0] >= 0 else None
+            elif a1[0] == "agg" and a1[1] == "adt" and (a1[3] or a1[2]).split("::")[-1] == "Range" and len(a1[5]) == 2:
+                ra, rb = rg.of(a1[5][0]), rg.of(a1[5][1])
+                if ra and rb and ra[0] >= 0 and ra[1] <= rb[0]:
+                    need = rb[1]
+            elif nm.split("::")[-1] in ("split_at", "split_at_mut"):
+                rr = rg.of(a1)
+                need = rr[1] if rr and rr[0] >= 0 else None
+        if need is not None and re.match(r"^&?(mut )?[\w.*()]+$", src):
+            s2 = src.replace("(", "").replace(")", "").replace(".*", "")
+            lb = _len_lower_bound(prog, fn, b, s2)
+            if need <= lb:
+                return Site(fn, b, k, line, txt, "discharged", "D6 range end %d <= %d <= len(%s) by a test still in force" % (need, lb, s2))
         return Site(fn, b, k, line, txt, "open", "range/index operation")
     return Site(fn, b, k, line, txt, "open", "panicking API")
+
+
+_LB_FLOW = {}
+
+
+def _len_lower_bound(prog, fn, blk, src):
+    """Largest k such that on every path to the end of block `blk` a test still in force
+    (the tested slice not written since) shows len(src) >= k.  Tests understood: `!src.is_empty()`,
+    `src.len() <op> c`.  Path-sensitive (world-set dataflow), so a guard re-evaluated at a loop head
+    counts for the body and a reassignment of `src` kills it."""
+    from df import Flow, Mods
+
+    src = src.lstrip("&").replace("mut ", "").strip()
+    key = (id(prog), fn.norm)
+    if key not in _LB_FLOW:
+        def track(k):
+            if k[0] == "call":
+                return k[1].split("::")[-1] == "is_empty"
+            if k[0] == "expr":
+                return "len(" in k[1] or "PtrMetadata(" in k[1]
+            return False
+
+        try:
+            _LB_FLOW[key] = Flow(prog, _mods(prog), fn, track)
+        except RuntimeError:
+            _LB_FLOW[key] = None
+    fl = _LB_FLOW[key]
+    if fl is None:
+        return 0
+    worlds = fl.at_term(blk)
+    if not worlds:
+        return 0
+    lens = ("slice::len(%s)" % src, "Vec::len(%s)" % src, "Vec::len(&%s)" % src, "slice::len(&%s)" % src, "PtrMetadata(%s)" % src, "VecDeque::len(&%s)" % src, "str::len(%s)" % src)
+    best = None
+    for w in worlds:
+        lb = 0
+        for k, (pos, vals) in w:
+            if not pos or len(vals) != 1:
+                continue
+            v = list(vals)[0]
+            if k[0] == "call" and k[1].split("::")[-1] == "is_empty" and len(k[2]) == 1 and k[2][0].lstrip("&").replace("mut ", "") in (src, "%s.*" % src) and v == 0:
+                lb = max(lb, 1)
+            if k[0] == "expr":
+                m = re.match(r"^(Lt|Le|Gt|Ge|Eq|Ne)\((.+), const\((\d+)\)\)$", k[1])
+                if m and m.group(2) in lens:
+                    op, c = m.group(1), int(m.group(3))
+                    if op == "Lt" and v == 0:
+                        lb = max(lb, c)
+                    elif op == "Le" and v == 0:
+                        lb = max(lb, c + 1)
+                    elif op == "Gt" and v == 1:
+                        lb = max(lb, c + 1)
+                    elif op == "Ge" and v == 1:
+                        lb = max(lb, c)
+                    elif op == "Eq" and v == 1:
+                        lb = max(lb, c)
+                    elif op == "Ne" and v == 1 and c == 0:
+                        lb = max(lb, 1)
+                m = re.match(r"^(Lt|Le|Gt|Ge)\(const\((\d+)\), (.+)\)$", k[1])
+                if m and m.group(3) in lens:
+                    op, c = m.group(1), int(m.group(2))
+                    if op == "Lt" and v == 1:
+                        lb = max(lb, c + 1)
+                    elif op == "Le" and v == 1:
+                        lb = max(lb, c)
+                    elif op == "Gt" and v == 0:
+                        lb = max(lb, c)
+                    elif op == "Ge" and v == 0:
+                        lb = max(lb, c + 1)
+        best = lb if best is None else min(best, lb)
+    return best or 0
+
+
+def _mods(prog):
+    from df import Mods
+
+    if getattr(prog, "_mods_for_panics", None) is None:
+        prog._mods_for_panics = Mods(prog)
+    return prog._mods_for_panics
 
 
 def _dominated_by_len_edge(prog, fn, blk, src, n):
